@@ -37,7 +37,7 @@ for p in props:
             "evidence_file": f"/verif/evidence/{pid}.json",
             "replay_cmd_template": f"./check {pid} --replay {{path}}",
             "engine": "lean-proof+correspondence",
-            "level_claimed": {"category": "proof", "text": c["level_text"], "design_ref": f"DESIGN.md §6 {pid}"},
+            "level_claimed": {"category": "proof", "text": c["level_text"] + ((" " + c["level_extra"]) if c.get("level_extra") else ""), "design_ref": f"DESIGN.md §6 {pid}"},
             "level_note": c["level_note"],
             "technique": c.get("technique", "Lean 4 theorems about an executable model + differential correspondence (model vs. real code)"),
         })
